@@ -103,6 +103,13 @@ partial def termToGo : Term → GoVal
       (b "levels", .slice [.int 1, .int 2]),
       (b "prices", .slice [.struct [(b "Amount", true, .int 1), (b "Cur", true, .str (b "a"))], .struct [(b "Amount", true, .int 2), (b "Cur", true, .str (b "b"))]]),
       (b "strs", .slice [.struct [(b "Amount", true, .int 4), (b "Cur", true, .str (b "d"))], .str (b "it")])]
+  | .list [.atom "NT", .atom "21"] =>
+    .map [(b "d", .ptr none), (b "e", .ptr none), (b "ok", .int 1), (b "p", .ptr none), (b "t", .ptr none), (b "u", .ptr none)]
+  | .list [.atom "NT", .atom "22"] =>
+    .struct [(b "Deleted", true, .ptr none), (b "Site", true, .ptr none), (b "Doc", true, .ptr none),
+      (b "Price", true, .ptr (some (.struct [(b "Amount", true, .int 5), (b "Cur", true, .str (b "USD"))]))), (b "Err", true, .ptr none),
+      (b "Name", true, .str (b "n"))]
+  | .list [.atom "NT", .atom "23"] => .slice [.ptr none, .ptr none, .ptr none, .ptr none, .int 7]
   | .list [.atom "NT", .atom _] => .struct []
   | _ => .other "?"
 where
